@@ -79,8 +79,23 @@ def records_for(inst, seed=0):
                         v = full[~m].copy()  # row-major gather of the unmasked cells: the documented slim order
                     return _build(kind, v, mask, store_native)
 
-                rt = _reads(mk(tagn))
-                rr = _reads(mk(realn))
+                ot, orr = mk(tagn), mk(realn)
+                rt = _reads(ot)
+                rr = _reads(orr)
+                # a construction history: masking further (a child object) and building a second object from the same
+                # caller array must leave what the parent reports unchanged
+                child_ok = True
+                if kind == "array" and len(u) > 1:
+                    m2 = m.copy()
+                    m2.reshape(-1)[u[0]] = True
+                    mask2 = aa.Mask2D(mask=m2, pixel_scales=(1.0, 1.0))
+                    for o_ in (ot, orr):
+                        before = {k_: v_.copy() for k_, v_ in _reads(o_).items()}
+                        o_.apply_mask(mask=mask2)
+                        aa.Array2D(values=o_.native, mask=mask2, store_native=store_native)
+                        after = _reads(o_)
+                        if any(not np.array_equal(before[k_], after[k_]) for k_ in before):
+                            child_ok = False
                 rec = {"p": "C01", "api": "structure", "h": h, "w": w, "u": u, "kind": kind, "given": given,
                        "store_native": store_native}
                 ok = True
@@ -100,6 +115,7 @@ def records_for(inst, seed=0):
                         if not (np.array_equal(want, got)):
                             ok = False
                 rec["payload_ok"] = bool(ok)
+                rec["parent_ok"] = bool(child_ok)
                 recs.append(rec)
     di = mask.derive_indexes
     recs.append({"p": "C01", "api": "indexes", "h": h, "w": w, "u": u,
